@@ -47,6 +47,10 @@ def c01(r):
             out.append(F('c01-terminal-changed', 'terminal states are final',
                          dict(entered=e, final=r.p.state.value, ops=r.ops)))
             return out
+    if getattr(r, 'left_terminal', None):
+        out.append(F('c01-terminal-left', 'terminal states are final', dict(transitions_started_from_a_terminal_state=r.left_terminal,
+                                                                              final=r.p.state.value, ops=r.ops)))
+        return out
     first = None
     for i, s in enumerate(r.snapshots):
         if s is None:
@@ -150,6 +154,16 @@ def c04(r):
             out.append(F('c04-kill-raised:' + c['raised'], 'kill() on a live process never raises', dict(phase=c['phase'], ops=r.ops[:c['idx'] + 1])))
     live_kills = [k for k in r.kill_results]
     live_cancels = [c for c in r.calls if c['op'] == 'cancelfut' and c['live'] and c['ret'] == 'T']
+    pf = getattr(r, 'pre_final', None)
+    if pf is not None and pf['state'] not in TERMINAL:
+        # quiescent (no callback ready) BEFORE the harness' completing play / resume: every step has yielded, so a kill requested
+        # on the live process earlier must have taken effect by now - it does not wait for somebody to wake the process
+        n_calls = pf['n_calls']
+        before = [c for c in r.calls[:n_calls] if c['op'] == 'kill' and c['live'] and not c.get('term_trans') and not c['raised']]
+        if before:
+            out.append(F('c04-kill-not-effective', 'the process ends KILLED as soon as the current step yields (here: nothing is '
+                         'ready any more and the process is still ' + pf['state'] + ')', dict(ops=r.ops, state=pf['state'], paused=pf['paused'])))
+            return out
     if live_kills:
         first = live_kills[0][2]
         if label not in ('killed', 'excepted'):
@@ -186,15 +200,16 @@ def c04(r):
         texts = {k[1] for k in live_kills} | {k[1] for k in getattr(r, 'term_kills', [])}
         if live_cancels:
             texts.add(CANCEL_TEXT)
-        if any(oc[0] == 'kill' for _, oc in r.prog['fns'].values()):
-            texts.add(pm.KILL_CMD_MSG)
+        for fid, (_aw, oc) in r.prog['fns'].items():
+            if oc[0] == 'kill':
+                texts.add(pm.KILL_CMD_MSG if int(fid) % 2 else None)      # even function ids return Kill() without a message
         try:
             msg = p.killed_msg()
             txt = msg.get(plumpy.process_comms.MESSAGE_TEXT_KEY) if isinstance(msg, dict) else msg
         except Exception as e:  # noqa
             txt = repr(e)
         if txt not in texts:
-            out.append(F('c04-kill-text', 'the kill text is recorded', dict(text=txt, requested=sorted(texts))))
+            out.append(F('c04-kill-text', 'the kill text is recorded', dict(text=txt, requested=sorted(map(str, texts)))))
     # "... or EXCEPTED if that step fails": a step function that raised while the process was live excepts the process
     for n, was_terminated in p._raised:
         if not was_terminated and not (label == 'excepted' and isinstance(p.exception(), UserExc)):
@@ -441,7 +456,7 @@ def c13(r):
             if lab == 'killed':
                 m = p.killed_msg()
                 txt = m.get(plumpy.process_comms.MESSAGE_TEXT_KEY) if isinstance(m, dict) else m
-            if lab != 'killed' or txt != pm.KILL_CMD_MSG:
+            if lab != 'killed' or txt != (pm.KILL_CMD_MSG if int(tr[-1][0]) % 2 else None):
                 out.append(F('c13-kill-command', 'Kill(msg) ends KILLED with msg', dict(got=r.outcome(), text=txt, ops=r.ops)))
         elif oc[0] == 'raise':
             if not (lab == 'excepted' and isinstance(p.exception(), UserExc) and p.exception().n == oc[1]):
